@@ -63,7 +63,8 @@ def main():
 
     # 1. saved minimal cases first (seconds; bypasses the generators entirely)
     try:
-        for path, body in harness.regress_cases(prop):
+        skip = os.environ.get('VERIF_SKIP_REGRESS') == '1'  # self-test only: measure the generators alone
+        for path, body in ([] if skip else harness.regress_cases(prop)):
             res = mod.replay(harness.dec(body['case']))
             if res:
                 sig, msg = res
